@@ -12,6 +12,7 @@
      - an uninitialized source given to malloc(entries, dtype, src) means "no source";
      - cast(dtype) is slice(0) retyped: it covers the whole elements of the view it is taken from;
      - every other request involving an uninitialized handle is an error;
+     - a single allocation (malloc, wrapMemory) of more than alloc_limit = 2^62-1 bytes is an error;
      - an error leaves the store and the handles unchanged.
    Written independently of Model.v (shares only the input/observation vocabulary of Base.v). *)
 From Coq Require Import List ZArith Bool Lia.
@@ -31,6 +32,9 @@ Record sstate : Type := mkS {
 Definition sinit : sstate := mkS (fun _ _ => undef) [] (repeat None nslots) [].
 
 Definition elems (v : view) : Z := vlen v / vdt v.
+
+(* the largest byte count the library accepts for one allocation *)
+Definition alloc_limit : Z := 4611686018427387903.
 
 (* element range [off, off+c) of view v, as (first absolute byte, number of bytes) *)
 Definition erange (v : view) (off c : Z) : option (Z * Z) :=
@@ -68,15 +72,15 @@ Definition s_step (st : sstate) (o : op) : sstate * obs :=
   match o with
   | OMalloc d n dt =>
       if n =? 0 then (with_handle st d None, OK)
-      else if n <? 0 then (st, ERR)
+      else if (n <? 0) || (alloc_limit <? n * dt) then (st, ERR)
       else (new_buffer st d (n * dt) dt false (fun _ => undef), OK)
   | OMallocH d n dt seed uhp =>
       if n =? 0 then (with_handle st d None, OK)
-      else if n <? 0 then (st, ERR)
+      else if (n <? 0) || (alloc_limit <? n * dt) then (st, ERR)
       else (new_buffer st d (n * dt) dt uhp (pat seed), OK)
   | OMallocM d n dt s =>
       if n =? 0 then (with_handle st d None, OK)
-      else if n <? 0 then (st, ERR)
+      else if (n <? 0) || (alloc_limit <? n * dt) then (st, ERR)
       else match H s with
            | None => (new_buffer st d (n * dt) dt false (fun _ => undef), OK)
            | Some v =>
@@ -85,7 +89,7 @@ Definition s_step (st : sstate) (o : op) : sstate * obs :=
                else (st, ERR)
            end
   | OWrap d n dt seed =>
-      if n <? 0 then (st, ERR) else (new_buffer st d (n * dt) dt true (pat seed), OK)
+      if (n <? 0) || (alloc_limit <? n * dt) then (st, ERR) else (new_buffer st d (n * dt) dt true (pat seed), OK)
   | OSlice d s off cnt =>
       match H s with
       | None => (st, ERR)
